@@ -27,6 +27,7 @@ def mkcopy(patched):
     shutil.copytree("/repo/dclab", d / "dclab", ignore=shutil.ignore_patterns("__pycache__", "*.c"))
     shutil.copy("/repo/CHANGELOG", d / "CHANGELOG")
     shutil.copytree("/repo/tests", d / "tests", ignore=shutil.ignore_patterns("__pycache__"))
+    shutil.copytree("/repo/examples", d / "examples", ignore=shutil.ignore_patterns("__pycache__"))
     if patched:
         subprocess.run(["patch", "-p1", "-s", "-d", str(d), "-i", str(dst / "patch.diff")], check=True)
     return d
